@@ -29,6 +29,9 @@ pub struct ImgStore {
     synced: Arc<Mutex<BTreeMap<String, usize>>>,
     /// names for which `create` replaced an existing file (like File::create does)
     replaced: Arc<Mutex<Vec<String>>>,
+    /// write-side rejections: (appends seen so far on this store, indices of the append calls that
+    /// fail with an I/O error WITHOUT writing a byte)
+    rejects: Arc<Mutex<(usize, std::collections::BTreeSet<usize>)>>,
 }
 
 impl ImgStore {
@@ -54,7 +57,18 @@ impl ImgStore {
             read_faults: Default::default(),
             synced: Arc::new(Mutex::new(self.synced.lock().unwrap().clone())),
             replaced: Default::default(),
+            rejects: Default::default(),
         }
+    }
+    /// The append calls (0-based, counted over all writers of this store, file headers included)
+    /// that are rejected with an I/O error and leave the file untouched.
+    pub fn set_rejected_appends(&self, idx: impl IntoIterator<Item = usize>) {
+        let mut g = self.rejects.lock().unwrap();
+        g.0 = 0;
+        g.1 = idx.into_iter().collect();
+    }
+    pub fn appends_seen(&self) -> usize {
+        self.rejects.lock().unwrap().0
     }
     /// A crash: every byte not covered by an fsync of its file is gone (files stay, possibly empty).
     pub fn simulate_crash(&self) {
@@ -87,11 +101,23 @@ pub struct ImgWriter {
     name: String,
     files: Files,
     synced: Arc<Mutex<BTreeMap<String, usize>>>,
+    rejects: Arc<Mutex<(usize, std::collections::BTreeSet<usize>)>>,
     size: u64,
 }
 
 impl WalFileWriter for ImgWriter {
     fn append(&mut self, data: &[u8]) -> Result<u64, WalError> {
+        {
+            let mut r = self.rejects.lock().unwrap();
+            let i = r.0;
+            r.0 += 1;
+            if r.1.contains(&i) {
+                return Err(WalError::Io(std::io::Error::new(
+                    std::io::ErrorKind::Other,
+                    "injected write rejection (nothing written)",
+                )));
+            }
+        }
         let mut g = self.files.lock().unwrap();
         let f = g.entry(self.name.clone()).or_default();
         f.extend_from_slice(data);
@@ -142,6 +168,7 @@ impl WalStore for ImgStore {
             name: name.to_string(),
             files: Arc::clone(&self.files),
             synced: Arc::clone(&self.synced),
+            rejects: Arc::clone(&self.rejects),
             size: 0,
         })
     }
